@@ -51,8 +51,7 @@ def _dmc(variant, lattices, minn, maxn, mps, eps):
 
 
 D_MC = {
-    "quick": [_dmc("ok", [103], 0, 4, [2, 3], [11, 32]),
-              _dmc("ok", [201], 0, 3, [2, 3], [11, 32])],
+    "quick": [_dmc("ok", [103], 0, 4, [2, 3], [11, 32])],
     "thorough": [_dmc("ok", [104], 0, 4, [2, 3], [11, 32, 21]),
                  _dmc("ok", [103], 5, 5, [4], [11, 32]),
                  _dmc("ok", [202], 0, 3, [2, 3], [11, 32, 21]),
@@ -83,7 +82,7 @@ D_GEN = {
         dict(Lattices="{301}", MinPts=0, MaxPts=3, MinPtsSet="{2, 3}", EpsSet="{11, 32, 21}", Specials=0, Hubs=0),
     ],
 }
-D_CAP = {"quick": 3000, "thorough": 60000}         # runs (= input x algorithm x index)
+D_QUOTA = {"quick": {"structured": 900, "n5": 700, "rest": 1800}, "thorough": None}     # runs (= input x algorithm x index) per family
 D_RANDOM = {"quick": 8, "thorough": 300}           # seeded structured inputs of C08's schema (n <= 40), x 6 runs
 
 
@@ -98,12 +97,12 @@ L123 = '{"l1", "linf", "l2"}'
 B_MC = {
     "quick": [
         # every step of NNBall is a step of the generalisation (leaves of 3 points: rounded bounds occur)
-        ("steps_of_nnball", "Next", _bmc(3, 0, "{0, 2, 4}", "{}", 2, L12, 3), ["InvBuildRule"], ["StepsOfNNBall"]),
+        ("steps_of_nnball", "Next", _bmc(3, 0, "{0, 2}", "{}", 3, L12, 3), ["InvBuildRule"], ["StepsOfNNBall"]),
         # the generalised search is correct whichever way an undecided comparison goes (incl. L2)
-        ("generalised", "GNext", _bmc(3, 0, "{0, 2, 4}", "{}", 3, '{"l1", "l2"}', 3),
+        ("generalised", "GNext", _bmc(3, 0, "{0, 2}", "{}", 3, '{"l1", "l2"}', 3),
          ["InvPrunedM", "InvStopSound", "InvAnswer", "NoPanic", "InvFrontier"], []),
         # where every bound is exact the generalisation adds nothing
-        ("steps_are_nnball", "GNext", _bmc(3, 0, "{0, 2, 4}", "{}", 2, L12, 2), [], ["StepsAreNNBall"]),
+        ("steps_are_nnball", "GNext", _bmc(3, 0, "{0, 2}", "{}", 3, L12, 2), [], ["StepsAreNNBall"]),
     ],
     "thorough": [
         ("steps_of_nnball", "Next", _bmc(3, 2, "{0, 2, 4}", "{0, 2}", 3, L12, 3), ["InvBuildRule"], ["StepsOfNNBall"]),
@@ -183,14 +182,17 @@ def density_runs(ctx):
     runs = uniq
     enumerated = len(runs)
     exhaustive = True
-    cap = D_CAP[ctx.tier]
-    if len(runs) > cap:
-        # always kept: the structured families and the n = 5 / min_points = 4 domain; a seeded sample of the rest
-        keep = lambda c: c["inp"]["src"] in ("special", "hub") or len(c["inp"]["pts"]) >= 5
-        a = [c for c in runs if keep(c)]
-        b = [c for c in runs if not keep(c)]
-        ctx.rng.shuffle(b)
-        runs = a + b[:max(0, cap - len(a))]
+    quota = D_QUOTA[ctx.tier]
+    if quota:
+        # seeded sample with a quota per family: structured inputs (3-4-5, hub), the n = 5 domain, the rest
+        fam = lambda c: "structured" if c["inp"]["src"] in ("special", "hub") else ("n5" if len(c["inp"]["pts"]) >= 5 else "rest")
+        groups = {"structured": [], "n5": [], "rest": []}
+        for c in runs:
+            groups[fam(c)].append(c)
+        runs = []
+        for g in ("structured", "n5", "rest"):
+            ctx.rng.shuffle(groups[g])
+            runs += groups[g][:quota[g]]
         exhaustive = False
     # seeded larger inputs of the same schema (chains, rings, blobs, duplicates, noise, random hub embeddings)
     import c08
